@@ -28,10 +28,12 @@ REQUIRED = {
     "C05": {"iteration:teleop": 500, "iteration:auto": 500, "iteration:disabled": 500, "iteration:test": 300,
             "timing-checked": 2000, "overrun-catchup": 30, "mode-string-checked": 2000, "teleop-in-auto-iteration": 100,
             "inherited-robot-class": 50, "fault-in-iteration-body-swallowed": 20, "statemachine-component": 100,
-            "robot-without-some-mode-hooks": 100},
+            "robot-without-some-mode-hooks": 100, "falsy-mode-object-active": 10, "mode-chosen-by-auto-selector-string": 50,
+            "falsy-component": 100},
     "C06": {"transition:teleop->auto": 20, "transition:auto->teleop": 20, "transition:teleop->disabled": 30,
             "transition:disabled->teleop": 30, "transition:auto->test": 10, "setup-checked": 300, "lifecycle-fault-swallowed": 30, "statemachine-component": 100, "end:teleop": 10, "end:auto": 10,
-            "end:disabled": 10, "end:test": 10, "robot-without-some-mode-hooks": 100},
+            "end:disabled": 10, "end:test": 10, "robot-without-some-mode-hooks": 100,
+            "hooks-that-are-not-plain-methods": 100, "mode-named-like-a-component": 20, "falsy-component": 100},
     "C07": {"swallowed:execute": 20, "swallowed:on_enable": 10, "swallowed:on_disable": 10, "swallowed:robotPeriodic": 10,
             "swallowed:teleopPeriodic-in-auto": 5, "swallowed:feedback": 10, "swallowed:mode.on_iteration": 5,
             "swallowed:init": 10, "swallowed:periodic": 10, "propagated": 100, "iterations-after-fault": 500,
@@ -40,7 +42,8 @@ REQUIRED = {
             "fault-in-reset-iteration": 20, "snapshot-checked": 20000,
             "marker-redeclared-in-subclass": 30, "marker-shadowed-by-plain-attribute": 30, "two-components-one-class": 50,
             "private-named-marker": 30, "identity-only-default": 30, "component-class-derived-from-another-component-class": 30,
-            "fault-after-fms-attached-mid-run": 10},
+            "fault-after-fms-attached-mid-run": 10, "two-components-comparing-equal": 20, "constructor-assigns-reset-attribute": 100,
+            "falsy-component": 100},
     "C11": {"feedback-value-checked": 5000, "feedback-type-checked": 5000, "raised-getter-unchanged": 20,
             "hint:int": 50, "hint:float": 50, "hint:bool": 50, "hint:str": 50, "hint:int[]": 20, "hint:rot": 20, "hint:none": 50,
             "explicit-key": 50, "get_-prefix-stripped": 50, "mode:disabled": 200, "mode:test": 100,
@@ -50,7 +53,7 @@ ASSUMPTIONS = {p: ["the robot thread is parked at the gate in NotifierDelay.wait
                    "on_disable order among components, setup order, feedback order inside an iteration are not specified and are compared as sets"]
                for p in REQUIRED}
 
-PERIODS = [20000, 20000, 5000, 50000, 15625]
+PERIODS = [20000, 20000, 5000, 50000, 15625, 15700, 16300]     # 0.0157 s * 1e6 is 15699.999999999998
 MODES = ["disabled", "auto", "teleop", "test"]
 ENABLED = ("auto", "teleop")
 
@@ -102,6 +105,18 @@ def gen_case(rng, pid, uid):
         if pid in ("C05", "C06") and rng.random() < 0.2:
             c["is_sm"] = True
             c["has_on_enable"] = c["has_on_disable"] = True
+        r_ = rng.random()
+        if r_ < 0.08:
+            c["truth"] = "len0"
+        elif r_ < 0.14:
+            c["truth"] = "boolFalse"
+        if rng.random() < 0.15:
+            c["eq_all"] = True
+        if not c.get("is_sm") and rng.random() < 0.2:
+            c["hook_kind"] = rng.choice(["static", "partial"])
+        for rr in c["resets"]:
+            if not rr["inherited"] and rng.random() < 0.2:
+                rr["ctor_value"] = rng.choice([9, "ctor", True, 2.5])
         comps[cn] = c
     if n >= 2 and rng.random() < (0.35 if pid == "C10" else 0.2):
         # two components that are instances of ONE class (`left: Shooter; right: Shooter`)
@@ -109,6 +124,8 @@ def gen_case(rng, pid, uid):
         a, b = rng.sample(cnames, 2)
         comps[b] = copy.deepcopy(comps[a])
         comps[b]["same_class_as"] = a
+        comps[a].pop("hook_kind", None)
+        comps[b].pop("hook_kind", None)
         for cn in (a, b):
             comps[cn]["inject"] = [x for x in comps[a]["inject"] if x not in (a, b)]
         if rng.random() < 0.5:
@@ -131,6 +148,11 @@ def gen_case(rng, pid, uid):
         k = rng.choice([1, 1, 2, 3])
         d = rng.randrange(k) if rng.random() < 0.85 else None
         modes = [{"name": f"m{i}{uid}", "default": i == d} for i in range(k)]
+        for m_ in modes:
+            if rng.random() < 0.12:
+                m_["falsy"] = rng.choice(["len", "bool"])       # a mode object that is falsy (an empty step queue)
+        if cnames and rng.random() < 0.08:
+            modes[0]["name"] = rng.choice(cnames)            # a mode that carries the same name as a component
     period = rng.choice(PERIODS)
     # ---- history
     hist = []
@@ -146,6 +168,8 @@ def gen_case(rng, pid, uid):
     spec = {"uid": uid, "pid": pid, "period_us": period, "teleop_in_auto": rng.random() < 0.5, "fms": False,
             "robot_classes": robot_classes, "components": comps, "robot_feedbacks": robot_fbs, "modes": modes,
             "history": hist, "disabled_flags": dflags, "super_robot_periodic": rng.random() < 0.3, "plan": {}}
+    if modes and rng.random() < 0.3:
+        spec["auto_selector"] = rng.choice([m["name"] for m in modes] + ["nosuchmode"])
     if rng.random() < 0.25:
         # a robot that does not override every mode hook: MagicRobot's own (empty / nagging) default runs instead
         hk = ["disabledInit", "disabledPeriodic", "teleopInit", "teleopPeriodic", "autonomousInit", "testInit", "testPeriodic"]
@@ -204,7 +228,7 @@ def gen_case(rng, pid, uid):
                 break
             s = rng.choice(pool)
             pat = rng.choice(["first", "kth", "kth", "every"])
-            kind = rng.choices(["plain", "attr", "key", "base"], [70, 12, 8, 10])[0]
+            kind = rng.choices(["plain", "attr", "key", "base", "unhashable"], [62, 12, 8, 10, 8])[0]
             lo = spec.get("fault_from", 0)
             if lo and site_kind(s) not in ("feedback", "robotPeriodic"):
                 continue            # only sites that run once per iteration in every mode have a known invocation index
@@ -243,6 +267,8 @@ def active_mode(spec):
     modes = spec.get("modes")
     if not modes:
         return None
+    if spec.get("auto_selector") in [m["name"] for m in modes]:
+        return spec["auto_selector"]            # the dashboard string wins when it names a mode
     d = [m["name"] for m in modes if m.get("default")]
     return d[0] if d else None
 
@@ -894,6 +920,23 @@ def run_case(spec, acc):
         V.ev("statemachine-component")
     if spec.get("omit_hooks"):
         V.ev("robot-without-some-mode-hooks")
+    cs = spec["components"].values()
+    if any(c.get("truth") for c in cs):
+        V.ev("falsy-component")
+    if any(c.get("eq_all") and (c.get("same_class_as") or any(o.get("same_class_as") == n for o in cs))
+           for n, c in spec["components"].items()):
+        V.ev("two-components-comparing-equal")
+    if any(c.get("hook_kind") for c in cs):
+        V.ev("hooks-that-are-not-plain-methods")
+    if any("ctor_value" in r for c in cs for r in c["resets"]):
+        V.ev("constructor-assigns-reset-attribute")
+    am_ = active_mode(spec)
+    if am_ and spec.get("auto_selector") == am_:
+        V.ev("mode-chosen-by-auto-selector-string")
+    if am_ and any(m.get("falsy") and m["name"] == am_ for m in spec["modes"]):
+        V.ev("falsy-mode-object-active")
+    if spec.get("modes") and any(m["name"] in spec["components"] for m in spec["modes"]):
+        V.ev("mode-named-like-a-component")
     return run, V
 
 
